@@ -545,6 +545,10 @@ func Run(sc Script, rep *kit.Report, cfg RunConfig) (st *State, env *Env, err er
 			}
 		case "commit":
 			ws := st.Writers[op.W]
+			if ws == nil || env.Writers[op.W] == nil {
+				rep.Discard("op-on-unknown-writer")
+				return true, nil
+			}
 			_, cerr := env.Writers[op.W].Commit()
 			if cerr != nil {
 				rep.Discard("commit-error")
@@ -558,6 +562,10 @@ func Run(sc Script, rep *kit.Report, cfg RunConfig) (st *State, env *Env, err er
 			full = cfg.CheckEvery
 		case "close":
 			ws := st.Writers[op.W]
+			if ws == nil || env.Writers[op.W] == nil {
+				rep.Discard("op-on-unknown-writer")
+				return true, nil
+			}
 			if len(ws.PendTS) > 0 {
 				rep.Class("close-with-uncommitted-tail")
 			}
